@@ -10,7 +10,7 @@ RULE = ("sessions = a table of screen programs (stack operations, signals, raise
 
 MANIFEST = dict(
     text="Proof: the acceptor chk_C08 (setup only for a screen not yet ready, before its refresh, with the entry's args; draw only right after the refresh of the same entry inside one _process_screen; a failed setup is followed at once by the discard of that entry; closed() fires exactly for the pop done by close_screen, immediately, never for replace or discard) holds for every session of the model (C08_lifecycle).",
-    note="Trusted: Coq kernel, extraction, harness (screen_worker.py records events through subclasses / name patching and releases typed lines when the loop is idle). " + 'a successful setup calls the base setup (sets ready, registers the source); failing setups do not.',
+    note="Since setup() callbacks can run commands of their own, C08_lifecycle / C08_ready_link / C08_frames_balanced carry the hypothesis failing_setup_plain (a screen whose setup() can report failure runs no commands in it); without it: C08_failed_setup_after_push_refuted = known finding F19 (stand-alone replay corpus/findings/F19_failed_setup_after_push.py). C08_setup_begin_once: a setup() with commands is entered only for a screen that is not ready, with the entry's arguments, at the start of a _process_screen. Trusted: Coq kernel, extraction, harness (screen_worker.py records events through subclasses / name patching and releases typed lines when the loop is idle). " + 'a successful setup calls the base setup (sets ready, registers the source); failing setups do not.',
     technique="Coq theorem: a trace acceptor holds for every application session of an interpreter model of the screen layer over the MainLoop model; the same extracted acceptor judges traces of the real implementation; differential correspondence model<->/repo")
 
 
